@@ -164,6 +164,10 @@ def run(chk):
     chk.rule("ensure-consistency", "ensure_left/right_canonical (abstract runs with canonicalise from source, 24 start configurations each on 2 and 4 sites): advertised form, label centre and direction flag on return; no sweep assertion fails", 4)
     chk.rule("tree-push", "push_cano_to_parent/child = decompose_to_* followed by merge_to_* with the same node (and child index)", 2)
     svd_mode_rule(chk, src)
+    chk.rule("svd-blocks", "svd_qn (abstract run with column provenance, shared with C05): every allowed sector's block is decomposed, columns on the rows of their sector with its label, and "
+                           "the result does not depend on the magnitude of the entries (the scalar prefactor may live in them)", 3)
+    from .chain_rules import svd_qn_rule
+    svd_qn_rule(chk, src, "svd-blocks")
     # lossless compression with per-bond limits at the Schmidt ranks needs the limit of the bond that is being cut (rule shared with C05)
     chk.rule("bond-index", "the kept-count limit looked up for a truncation is the limit of the bond being truncated (explicit list and configuration path agree)", 6)
     from .C05 import bond_index_rule
